@@ -505,6 +505,9 @@ func CheckMain(root, id, tier string, seed uint64) int {
 	}
 	fmt.Printf("%s %s: %d runs (%d enumerated, %d seeded) in %.1fs, %d distinct non-trivial, %d new violation class(es), %d known finding(s)\n",
 		id, tier, total.Runs, fixedDone, seededDone, wall, len(digests), newViolations, knownHits)
+	if newViolations > 0 {
+		return 1
+	}
 	if total.Runs == 0 {
 		fmt.Fprintln(os.Stderr, "HARNESS TROUBLE: no run was executed")
 		return 2
